@@ -11,63 +11,63 @@ CHECKS = {
    note="Trusted: refmodel (nested BTreeMap), rustc. Bounds per scenario in evidence. Page size 1024, strict profile (debug assertions, overflow checks)."),
  "C05": dict(engine="seqx", cat="model_checking", ref="DESIGN.md §2 C05",
    technique="explicit-state search over operation histories; after every commit an independent parser checks the raw file (page partition, bounds, order, separators) and DB::check() must agree",
-   text="Same exploration as C01 with only the structural oracle: after every commit of every explored history the file is parsed by fileck (no code shared with the library) and every page below the high-water mark must be accounted for exactly once.",
+   text="Same exploration as C01 with only the structural oracle: after every commit of every explored history the file is parsed by fileck (no code shared with the library) and every page below the high-water mark must be accounted for exactly once. Alphabets include dropped transactions, page sizes 1024-16384, boundary-size values, binary / empty / long keys, five-level nesting, 560 sibling buckets, bulk blocks (3-4 level trees).",
    note="Trusted: fileck (restates the pinned layout). Bounds per scenario in evidence."),
  "C06": dict(engine="seqx", cat="model_checking", ref="DESIGN.md §2 C06",
    technique="explicit-state search over commit/drop/reopen/read-only histories; byte-identity of the file and absence of write calls (interposed libc), digest equality, and one-step bisimulation of follow-up commits",
-   text="All histories over a menu of large transactions (bulk inserts, nested bucket deletes, overflow values, failing calls) each committed or dropped, reopen, and every mutator attempted through a read-only transaction; a non-committing action must leave file bytes, the shared free list and every follow-up commit unchanged.",
+   text="All histories over a menu of large transactions (bulk inserts, nested bucket deletes, overflow values, failing calls) each committed or dropped, reopen, and every mutator attempted through a read-only transaction; a non-committing action must leave file bytes, the shared free list and every follow-up commit unchanged. Further scenarios: one header slot torn by the environment and commits failing at each of their I/O calls (plain and cut short), opens with another page size (refused, bytes unchanged), headers moved into the pinned slots, strict mode on a file with a leaked page (a commit that reports an error must not have changed anything).",
    note="Trusted: interposition sees every write path of the library (write/fallocate/ftruncate on the database fd). Follow-ups are compared at equal hash-seed positions."),
  "C07": dict(engine="seqx", cat="model_checking", ref="DESIGN.md §2 C07",
    technique="explicit-state search over operation histories with the full read API compared against the reference model after every single operation inside the write transaction",
-   text="Same histories as C01 in probing mode: after each put/delete/bucket operation inside the open write transaction, point gets of every key of the universe, cursor scan, bucket and pair listings, seek to every key and a menu of ranges are compared with the model.",
+   text="Same histories as C01 in probing mode: after each put/delete/bucket operation inside the open write transaction, point gets of every key of the universe, cursor scan, bucket and pair listings, seek to every key and a menu of ranges are compared with the model; every put into a non-empty bucket is made while a positioned cursor of that bucket is kept (it must still reach every untouched later entry); one transaction puts 66 000 entries and reads around slots 2^7..2^16.",
    note="Trusted: refmodel. Probing changes the overlay's bookkeeping, so this is a different exploration from C01."),
  "C08": dict(engine="enumx", cat="exploration", ref="DESIGN.md §2 C08",
    technique="bounded-exhaustive enumeration of all seek keys and all bound pairs of every kind over a catalogue of tree shapes (committed and mid-transaction), executed on the real library against the reference filter",
-   text="For each bucket shape (empty, single leaf, two and three levels, every deletion subset of the two-level base, nested buckets; each committed and inside an open write transaction) every probe key (each key, both gaps next to it, below, above, empty) is used for get, seek+iterate and as lower/upper bound of every kind in all combinations, also through the bucket-only and pair-only iterators, plus next() after exhaustion.",
+   text="For each bucket shape (empty, single leaf, two and three levels, every deletion subset of the two-level base, nested buckets; each committed and inside an open write transaction) every probe key (each key, both gaps next to it, below, above, empty) is used for get, seek+iterate and as lower/upper bound of every kind in all combinations, also through the bucket-only and pair-only iterators, plus next() after exhaustion, seeks on cursors advanced 1..n times and past the end, the overridable iterator methods (last, count, nth, size_hint), binary / prefix / empty keys, and one leaf of 66 000 entries filled by a single transaction.",
    note="Trusted: refmodel filter. The shape catalogue and probe construction bound the input space; within it nothing is sampled."),
  "C12": dict(engine="metax", cat="fault_enumeration", ref="DESIGN.md §2 C12",
    technique="exhaustive enumeration of single-header damage patterns (every offset x byte values, word-range fills, all word mixes of the two headers) applied to closed files after 0..n commits; each damaged image opened by the real library and compared with the state of the newest header still valid per the independent checker",
-   text="Every damage pattern of the bounded classes on either header page of every base file is opened with the real library: open must succeed, the full dump must equal the state recorded by the newest header that is still valid (type byte + checksum, decided by fileck), DB::check() must agree, and one more commit must read back and leave a well-formed file.",
+   text="Every damage pattern of the bounded classes on either header page of every base file is opened with the real library: open must succeed, the full dump must equal the state recorded by the newest header that is still valid (type byte + checksum, decided by fileck), DB::check() must agree, and one more commit must read back and leave a well-formed file in which the other slot still holds the header it fell back on. Bases: 0..n commits, the same with a final empty write transaction, and legacy-format files upgraded by one commit; by the model's own commit count the shown state must be the last or the one before it.",
    note="Trusted: fileck's restatement of header validity; refmodel. One header damaged, the rest of the file intact."),
  "C02": dict(engine="crashx", cat="fault_enumeration", ref="DESIGN.md §2 C02",
-   technique="exhaustive crash-image enumeration per commit from the interposed write/fsync/fallocate log of the real write path (all subsets of unsynced ops, sector tears, 8-byte header tears, kill prefixes), each image reopened with the real library",
-   text="For every commit of the scripted histories (file growth from 4 pages, page-reusing update chains, overflow values, bucket deletes, splits/merges, every pair of kv-alphabet transactions) every crash image of the stated crash model is synthesised and reopened: open must succeed and show exactly the pre- or post-state (post once all syncs completed), DB::check() and the independent checker must accept the file.",
+   technique="exhaustive crash-image enumeration per commit from the interposed write/fsync/fallocate log of the real write path (all subsets of unsynced ops, sector tears, 8-byte header tears, kill prefixes), each image reopened with the real library; second- and third-level chains (crash, recover with the real library, commit, crash again)",
+   text="For every commit of the scripted histories (file growth from 4 pages, page-reusing update chains, overflow values, bucket deletes, splits/merges, every pair of kv-alphabet transactions) every crash image of the stated crash model is synthesised and reopened: open must succeed and show exactly the pre- or post-state (post once all syncs completed), DB::check() and the independent checker must accept the file. Page sizes 1024, 4096, 5000 and 1032 (nodes ending in the last bytes of a page run).",
    note="Trusted: the crash model (fsync barrier semantics, 512-byte sectors, 8-byte header words), fileck, refmodel. Interposition sees all I/O of the library on the database fd."),
  "C11": dict(engine="faultx", cat="fault_enumeration", ref="DESIGN.md §2 C11",
    technique="exhaustive single-fault enumeration: every I/O call of every target commit fails in every mode of its kind (errno, short write then errno) via in-process libc interposition; then follow-up transactions on the same handle and a reopen, judged by the reference model, the independent file checker and DB::check()",
-   text="For each commit of the scripted histories the calls it issues are counted, then the same history is replayed once per (call, failure mode): commit must return Err without panicking, the same handle must at once show exactly the pre- or post-state, three further transactions (one reusing free pages) must commit and read back, and the file must be well-formed, also after reopening. Thorough adds a second fault at every call of the large follow-up commit.",
+   text="For each commit of the scripted histories the calls it issues are counted, then the same history is replayed once per (call, failure mode): commit must return Err without panicking, the same handle must at once show exactly the pre- or post-state, three further transactions (one reusing free pages) must commit and read back, and the file must be well-formed, also after reopening. After a fault that hit a sync or cut a write short, a second fault at each of the first 14 calls of the next commit (thorough: also 24 calls of the large follow-up). Every case is repeated with an abandoned write transaction right after the failure, with a reader opened before it (pre-sized files) and, for double failures, with a reader opened between them; after a failed growth step the next commit needs more than one step.",
    note="Trusted: interposition reaches every I/O call of the commit path; refmodel; fileck. RLIMIT_FSIZE is modelled as the extension/write call failing."),
  "C04": dict(engine="schedx", cat="model_checking", ref="DESIGN.md §2 C04, §1.5 E2",
    technique="stateless preemption-bounded (CHESS-style) exploration of all schedules of real reader and writer threads on the real library under a baton scheduler that owns the lock model; scheduling points at every library lock acquisition and every system call on the database fd",
-   text="Every chain of two (thorough: three) writer commits from a menu of six transaction bodies of different dirty-set sizes runs against one or two reader threads under every schedule with at most c preemptions; each reader's dumps must all equal one committed state that is at least as new as every commit completed before the reader began; no panic, no deadlock; the file afterwards holds the last state.",
+   text="Every chain of two (thorough: three) writer commits from a menu of six transaction bodies of different dirty-set sizes runs against one or two reader threads under every schedule with at most c preemptions; each reader's dumps must all equal one committed state that is at least as new as every commit completed before the reader began; no panic, no deadlock; the file afterwards holds the last state. Further cases: a second writer thread with a commuting chain, commits whose final sync fails (once, twice in a row) or whose header write fails, a commit that grows the file, and a staged case with two readers of different ages over six commits.",
    note="Trusted: the lock seam reports every lock operation of db.rs/tx.rs; interposition sees every syscall on the fd; refmodel. Bounds (threads, commits, preemptions) per case in evidence."),
  "C09": dict(engine="schedx", cat="model_checking", ref="DESIGN.md §2 C09",
    technique="stateless preemption-bounded exploration of all schedules of 1-3 real writer threads doing read-modify-write increments with 0-2 reader threads, including file growth (remap under the map write lock); deadlock = no enabled thread in the scheduler's lock model; both RwLock priority models",
-   text="Under every schedule within the bound: never two write transactions open at once, each writer reads a counter value not older than the commits completed before it began, the values read are 0..W-1 exactly once and the final value is W, readers see one value, every thread finishes (no deadlock under either RwLock model), and in the liveness scenario a reader is never blocked by an open uncommitted writer.",
+   text="Under every schedule within the bound: never two write transactions open at once, each writer reads a counter value not older than the commits completed before it began, the values read are 0..W-1 exactly once and the final value is W, readers see one value, every thread finishes (no deadlock under either RwLock model), and in the liveness scenario a reader is never blocked by an open uncommitted writer. Cases with a failed mmap / failed final sync in writer 0's first commit, a 20 MiB value, DB::check() in reader threads.",
    note="Trusted as for C04. Each thread holds at most one transaction, as the documentation requires."),
  "C13": dict(engine="schedx", cat="model_checking", ref="DESIGN.md §2 C13",
-   technique="stateless exploration of all schedules (2 openers: complete; 3 openers: preemption-bounded) of opener threads at system-call granularity with flock modelled by the scheduler per inode",
+   technique="stateless exploration of all schedules (2 openers: complete; 3 openers: preemption-bounded) of openers at system-call granularity: opener threads with flock modelled by the scheduler per inode, and forked opener processes released one system call at a time under the kernel's own flock",
    text="Two and three openers of the same file, existing or not yet created, each committing a marker while it holds the database: under every explored schedule never two openers inside, every open returns Ok, each opener sees the markers of all openers that closed before its open returned, no deadlock, all markers in the final file.",
-   note="Openers are threads with independent descriptors (flock is per open file description); the library has no process-wide state. A cross-check with real forked processes is not built."),
+   note="Thread cases: openers are threads with independent descriptors (flock is per open file description; the scheduler's lock model takes the kernel's answer for every lock it grants). Process cases: the same opener bodies as forked processes, each stopped through a pipe before every system call on the database file and released one at a time, flock answered by the kernel alone. Variants: signal during the lock wait, failed initialisation, failed length query, failed sync then file growth, holder growing the file, second descriptor on the same file, different num_pages / populate per opener."),
  "C03": dict(engine="seqx", cat="model_checking", ref="DESIGN.md §2 C03",
    technique="explicit-state breadth-first search over single-threaded interleavings of open-reader / close-reader / committing and rolled-back writers on the real library; every open reader fully re-dumped after every action and compared with the state recorded when it was opened",
    text="All action sequences to the stated depth over {open reader (up to k open), close reader i, commit j, drop j} with a page-reusing update/delete menu: after every action every long-lived read transaction must still dump exactly the state committed when it began (a consistent newer state is a violation here). Unmapped database memory is replaced by inaccessible pages so a stale pointer faults deterministically.",
-   note="Trusted: refmodel; the file is pre-sized because growing it while the same thread holds a reader self-deadlocks by design (documented)."),
+   note="Trusted: refmodel; the file is pre-sized because growing it while the same thread holds a reader self-deadlocks by design (documented). Supplements inside the same check: readers opened while a write transaction is open, commit() on a reader, staged histories holding a reader over 8-66 (thorough 260) commits, and a preemption-bounded threaded run (reader threads beginning inside another thread's commit)."),
  "C10": dict(engine="seqx", cat="model_checking", ref="DESIGN.md §2 C10",
    technique="explicit-state closure search: complete reachable state graph of small cyclic workloads on the real library, keyed by a digest without absolute transaction ids (fixpoint = bounded page high-water mark for all infinite runs over that alphabet), plus long deterministic laps",
-   text="For each small cyclic workload (fixed- and two-size overwrites, delete/re-insert, bucket delete/recreate, an overflow value coming and going, reopen, one reader pinned across up to three commits) the search runs until no new state appears; the maximum page high-water mark over the closed set is a bound for every infinite run. Larger workloads run as deterministic laps of 2 000 / 20 000 transactions with plateau, reopen and pinned-reader rules.",
+   text="For each small cyclic workload (fixed- and two-size overwrites, delete/re-insert, bucket delete/recreate, an overflow value coming and going, reopen, one reader pinned across up to three commits) the search runs until no new state appears; the maximum page high-water mark over the closed set is a bound for every infinite run. Larger workloads run as deterministic laps of 2 000 / 20 000 (one lap 70 000) transactions with plateau, reopen and pinned-reader rules: overwrites, bucket churn, multi-page free lists, three overlapping readers, rollbacks, long keys, a 9 MiB value, nested-then-ancestor deletes.",
    note="Trusted: the relative digest is sound (argument in DESIGN.md; merged pairs across different transaction ids are cross-checked by comparing all one-step successors); fileck reads the high-water mark."),
  "C16": dict(engine="optx", cat="exploration", ref="DESIGN.md §2 C16",
    technique="exhaustive enumeration of the configuration product (page size x initial pages x strict x populate) with a fixed set of page-size-scaled histories executed on the real library against the reference model; every builder-accepted odd page size probed in a subprocess",
-   text="All 108 configurations run the same histories (key/value sizes as fractions of the page size so split/merge thresholds are hit everywhere): every return value and post-commit dump must equal the reference model, the file must be well-formed, strict mode must not reject a valid commit; growth runs start from the configured initial size and cross at least four extension steps; every page size in [1024,1100] and 4095..4104 must work or be refused cleanly.",
+   text="All 108 configurations run the same histories (key/value sizes as fractions of the page size so split/merge thresholds are hit everywhere): every return value and post-commit dump must equal the reference model, the file must be well-formed, strict mode must not reject a valid commit; growth runs start from the configured initial size and cross at least four extension steps; every page size in [1024,1100] and 4095..4104 must work or be refused cleanly; the persisted free list is walked across the one-page capacity with a reopen after every commit; reopen with another num_pages; a sweep of commits ending around the last (partial) page of the grown file at page sizes 1032 / 3000 / 5000 / 4096.",
    note="Trusted: refmodel, fileck. direct_writes is not in the property's quantifier."),
  "C15": dict(engine="compatx", cat="exploration", ref="DESIGN.md §2 C15",
    technique="enumeration of golden files written by the pinned code (4 page sizes x 3 header variants incl. the legacy SHA3 record) opened and continued under the current code, every mismatching page size refused byte-identically, and every file produced by a fixed history set parsed by the independent reader that encodes the pinned layout",
-   text="Each golden file (nested buckets three deep, multi-page values, non-empty free list, 6 commits) must open with exactly the recorded contents in all three header variants, accept five further transactions (one reusing free pages) and a reopen; opening it with any other page size of the set must be refused without changing a byte; files written by the current tree at each page size must parse with fileck to the reference contents.",
+   text="Each golden file (nested buckets three deep, multi-page values, non-empty free list, 6 commits) must open with exactly the recorded contents in all three header variants, accept five further transactions (one reusing free pages) and a reopen; opening it with any other page size of the set must be refused without changing a byte; files written by the current tree at each page size (option histories, free-list boundary walk, reader-pinned multi-page free list) must parse with fileck to the reference contents and pass DB::check(); small never-grown files must refuse every other page size. Golden variants and produced histories run in forked copies of the check.",
    note="Trusted: fileck (pinned layout constants), the golden generation procedure (golden/README), refmodel."),
  "C14": dict(engine="typex", cat="exploration", ref="DESIGN.md §2 C14",
-   technique="bounded-exhaustive enumeration of client programs generated from the complete public API surface (nightly rustdoc JSON of the current tree) x escape routes; each decided by rustc's type/borrow checker, and every program that compiles executed in a probe process with unmapped memory made inaccessible",
-   text="For every public method and trait method on every type reachable from a transaction (producers, arguments synthesised from the bounds) and every escape route (past the transaction's scope, past commit, returned from the owning function, leaked transaction past its database, moved / shared into scoped and spawned threads, plus argument and handle routes) the program must be rejected with a borrow / lifetime / Send error, or, if it compiles, run without a fault and with identical bytes while the file is rewritten and remapped; positive controls must compile.",
+   technique="bounded-exhaustive enumeration of client programs generated from the complete public API surface (nightly rustdoc JSON of the current tree: methods, trait impls, enum-variant fields, public struct fields) x escape routes; each decided by rustc's type/borrow checker, and every program that compiles executed in a probe process with unmapped memory made inaccessible",
+   text="For every public method and trait method on every type reachable from a transaction (producers, arguments synthesised from the bounds) and every escape route (past the transaction's scope, past commit, returned from the owning function, leaked transaction past its database, moved / shared into scoped and spawned threads, plus argument and handle routes) the program must be rejected with a borrow / lifetime / Send error, or, if it compiles, run without a fault and with identical bytes while the file is rewritten and remapped; positive controls must compile, and every 'ordinary usage' program (value outlives the temporary handles, not the transaction) that the repaired pinned types accept (golden/typex_ordinary_baseline.json) must still compile.",
    note="Trusted: rustc; the munmap-poisoning probe. API items the synthesiser cannot call are listed as coverage gaps in the evidence, never as violations."),
 }
 
